@@ -163,10 +163,12 @@ def r14_2(ctx):
         f = repo.func(q)
         ctx.analysed(q)
         k = 0
+        from .c01 import vis_var
+        vv = vis_var(f.node)
         for n in ast.walk(f.node):
             if isinstance(n, ast.Assign) and any(ast.unparse(t) == "self._write_to_conf" for t in n.targets):
                 v = ast.unparse(n.value)
-                if v in ("vis != 0", "True") or (isinstance(n.value, ast.Name)):
+                if v in (f"{vv} != 0", "True") or (isinstance(n.value, ast.Name)):
                     continue
                 k += 1
                 construct = f"{f.short}/_write_to_conf lowered #{k} (`{v}`)"
